@@ -59,6 +59,7 @@ type Env struct {
 	pkg         *types.Package
 	at          *ssa.BasicBlock // loop header for local name resolution (nil: entry/return)
 	phiOverride map[*ssa.Phi]string
+	entryAt     *ssa.BasicBlock // set while evaluating atentry(e): the loop header
 	inOld       bool
 	where       string
 	facts       []string // heap well-formedness facts about ground pointer loads
@@ -205,10 +206,13 @@ func (env *Env) eval(e CExpr) EV {
 			}
 			saved, savedAt := env.st, env.at
 			env.st, env.at = env.loopPre, nil
-			savedIn := env.inOld
+			savedIn, savedEntryAt := env.inOld, env.entryAt
 			env.inOld = true
+			if savedAt != nil {
+				env.entryAt = savedAt // locals are resolved at the loop header, phis to their entry value
+			}
 			v := env.rvalue(env.eval(x.Args[0]))
-			env.st, env.at, env.inOld = saved, savedAt, savedIn
+			env.st, env.at, env.inOld, env.entryAt = saved, savedAt, savedIn, savedEntryAt
 			return v
 		}
 		return env.callExpr(x)
@@ -231,6 +235,15 @@ func (env *Env) ident(name string) EV {
 	}
 	if !env.inOld && env.at != nil {
 		if v, ok := fe.resolveLocal(env, name); ok {
+			return v
+		}
+	}
+	if env.entryAt != nil {
+		// inside atentry(): a local of the enclosing function, as of loop entry
+		env.at = env.entryAt
+		v, ok := fe.resolveLocal(env, name)
+		env.at = nil
+		if ok {
 			return v
 		}
 	}
@@ -307,6 +320,15 @@ func (fe *FuncEnc) resolveLocal(env *Env, name string) (EV, bool) {
 			break
 		}
 		if phi.Comment == name {
+			if env.entryAt != nil {
+				// value on entry: the incoming edge from outside the loop
+				li := fe.loops[h]
+				for i, p := range h.Preds {
+					if li == nil || !li.blocks[p] {
+						return EV{T: fe.val(phi.Edges[i]), Typ: phi.Type()}, true
+					}
+				}
+			}
 			if t, ok := env.phiOverride[phi]; ok {
 				return EV{T: t, Typ: phi.Type()}, true
 			}
@@ -787,8 +809,15 @@ func (env *Env) quant(x *CQuant) EV {
 		for _, t := range x.Trig {
 			ts = append(ts, env.rvalue(env.eval(t)).T)
 		}
-		env.inTrigger = false
 		trig = " :pattern (" + strings.Join(ts, " ") + ")"
+		for _, grp := range x.AltTrig {
+			var gs []string
+			for _, t := range grp {
+				gs = append(gs, env.rvalue(env.eval(t)).T)
+			}
+			trig += " :pattern (" + strings.Join(gs, " ") + ")"
+		}
+		env.inTrigger = false
 	}
 	for n, o := range saved {
 		if o == nil {
